@@ -79,6 +79,9 @@ def main():
                               prop="C11")
     # 7. workspace folder: a server started on a directory that already holds documents behaves as if they had been opened
     workspace_clause(rep, cov, tier)
+    # 8. near-identical texts: three documents that are equal when letter case is ignored but are not the same program
+    #    (a hexadecimal literal is only lexed with upper-case digits; the OSCAT markers are matched with their exact case)
+    near_identical_clause(rep, cov, tier)
     # 6. positions: every single-fault unit of Unit.tla, laid out anew at random (so that faulty lexemes start in column
     #    0, after CRLF, after several blanks ...), through the server and through `check`: same (code, line, column)
     positions_clause(rep, cov, tier)
@@ -88,6 +91,32 @@ def main():
     return rep.finish("model_checking", cov, assumptions=[
         "Diag(state,u) is measured on freshly started servers (twice); absolute correctness of diagnostics is C02/C03/C05",
         "diagnostics compared as sorted lists of (code, start line, start character)"])
+
+
+def near_identical_clause(rep, cov, tier):
+    """every history up to length 4 over one document and three texts that differ in letter case only, yet have different
+    diagnostics: whatever the server keys its memo on must be the text itself"""
+    import lspdrv
+    body = "FUNCTION_BLOCK FB_H\nVAR a : INT; b : INT; END_VAR\na := b + 16#FF;\nEND_FUNCTION_BLOCK\n"
+    texts = {1: body, 2: body.replace("16#FF", "16#ff"), 3: body.replace("FB_H", "fb_h")}
+    r = vlib.tlc_check("Lsp.tla", "MC_Lsp_case.cfg", workers=4)
+    cov["states"] += r["states"]
+    cov["transitions"] += r["transitions"]
+    cov["tlc_runs"].append({"cfg": "MC_Lsp_case.cfg", "states": r["states"], "behaviours": len(r["replay"])})
+    replays = r["replay"]
+    tables = lspcheck.Tables(texts, nuri=1)
+    dk, tk = lspcheck.needed_keys(replays)
+    tables.fill(dk, tk)
+    if tables.diag.get(((1,), 1)) == tables.diag.get(((2,), 1)):
+        raise vlib.ToolError("the two case variants have the same diagnostics: the clause is vacuous")
+    results = lspcheck.run_replays(replays, texts)
+    for rp, res in zip(replays, results):
+        sig = lspcheck.compare(rp, res, tables)
+        if sig:
+            rep.add("near-identical:" + sig, labels={"near-identical"} | lspcheck.labels_of(rp),
+                    detail={"history": rp["hist"], "expected": rp["out"], "observed": lspdrv.observe(res["frames"]), "rc": res["rc"]},
+                    replay={"history": rp["hist"], "texts": {str(k): v for k, v in texts.items()}})
+    cov["near_identical_histories"] = len(replays)
 
 
 def workspace_clause(rep, cov, tier):
